@@ -192,7 +192,8 @@ UNITS = {
     "hashes_generic": dict(
         template="kani/hashes", crate="hashes_h", zflags=["stubbing"], cargo_args=["--features", "no_simd"], rustflags=RF_HOOK, native_replay=False,
         backend_note="no_simd build: BLAKE and JH cores on the portable backend",
-        rules=[x for x in HASH_RULES() if "_core::" in x[0]],
+        # (the initial-value contract is about constants and runs the real f8 once: x86 unit only)
+        rules=[x for x in HASH_RULES() if "_core::" in x[0] and "iv_contract" not in x[0]],
     ),
     "ppvnull": dict(
         template="kani/ppvnull", crate="ppvnull_h", zflags=[], cargo_args=[], rustflags=RF_ZC,
